@@ -249,7 +249,15 @@ pub fn gen_cases(mode: &str, tier: &str, seed: u64, out: &str) {
                 let sp = *rng.pick(&[1e-5, 1e-4, 1e-3, 1e-2]);
                 let at = if rng.chance(0.6) { AngleTolerance::Default } else { AngleTolerance::Radian(rng.uniform(5e-3, 2e-2)) };
                 let lvl = rng.range(0, 2) as u32;
-                let c = redescribe(&base, &mut rng, lvl, None);
+                // every fourth crystal as a supercell of index 2..4 (noise is added afterwards, independently on every copy):
+                // translation groups with elements of order 4 arise from centred cells
+                let sup = if k % 4 == 1 && base.cell.num_atoms() <= 40 {
+                    let idx = rng.range(2, 4) as i32;
+                    Some(*rng.pick(&hnfs_of_index(idx)))
+                } else {
+                    None
+                };
+                let c = redescribe(&base, &mut rng, lvl, sup);
                 let st = *rng.pick(&settings);
                 emit(&mut w, format!("h{}k{}-clean", h, k), &c, sp, at, st);
                 for r in 0..(if thorough { 4 } else { 2 }) {
